@@ -15,7 +15,20 @@ def main():
     c.add_argument('-v', action='store_true')
     r = sub.add_parser('replay')
     r.add_argument('path')
+    k = sub.add_parser('case')
+    k.add_argument('prop')
+    k.add_argument('case_id')
+    k.add_argument('--tier', default='quick')
+    k.add_argument('--seed', type=int, default=0)
     a = ap.parse_args()
+    if a.cmd == 'case':
+        import importlib
+        os.environ['VERIF_REPLAY'] = '1'
+        mod = importlib.import_module('vz.props.' + a.prop.lower())
+        c = [c for c in mod.cases(a.tier, a.seed) if c['id'] == a.case_id]
+        if not c:
+            sys.exit('no such case')
+        sys.exit(driver.run_check(a.prop, a.tier, a.seed, only_case=c[0], verbose=True))
     if a.cmd == 'check':
         tier = a.tier or os.environ.get('VERIF_TIER') or 'quick'
         seed = a.seed if a.seed is not None else int(os.environ.get('VERIF_SEED', '0') or 0)
